@@ -176,6 +176,13 @@ func xcompare(c *ev.Ctx, r *ev.Report, prop, suite string, cfgs []xcfgSpec, keyO
 	}
 	var data [][]byte
 	for i := range cfgs {
+		if errs[i] != nil && strings.Contains(errs[i].Error(), "signal: killed") {
+			// SIGKILL comes from outside the process (the kernel's OOM killer, an operator),
+			// never from the code under test: the suite is incomplete, not refuted
+			r.Exhaustive = false
+			r.Notes = append(r.Notes, fmt.Sprintf("suite %s under %s: the child process was killed from outside (SIGKILL); its shard was not compared", suite, cfgs[i].name))
+			return
+		}
 		if errs[i] != nil {
 			r.Violate(ev.Violation{Property: prop, Key: "suite-child-died:" + suite + ":" + cfgs[i].name, What: "the process running the suite under this configuration died",
 				Case: ev.J(map[string]string{"suite": suite, "cfg": cfgs[i].name}), Expected: "suite completes", Observed: errs[i].Error()})
